@@ -79,12 +79,14 @@ func Universe(thorough bool) (keys, prefixes, afters []string, limits []int) {
 	long := "z/" + strings.Repeat("k", 253)
 	// "a/b/" is a key that ends in a slash: it equals one of the listed prefixes, so the
 	// listing of that prefix has the empty string as a child
-	keys = []string{"a", "ab", "a/b", "a/b/c", "a/c", "d/x.temp", "é/ü", "a/b/"}
+	keys = []string{"a", "ab", "a/b", "a/b/c", "a/c", "d/x.temp", "é/ā€日", "a/b/"}
+	// (the non-ASCII key holds UTF-8 continuation bytes in 0x80-0x9f as well as above: a byte-wise
+	// printable check would refuse it, a rune-wise one accepts it)
 	if thorough {
 		keys = append(keys, long, "a-b")
 	}
 	prefixes = []string{"", "a/", "a/b/", "d/", "é/", "zz/", "z/"}
-	afters = []string{"", "a", "a/", "aa", "b", "c", "zzz", ".", "..", "./b", "x/y", "a/b", "ü"}
+	afters = []string{"", "a", "a/", "aa", "b", "c", "zzz", ".", "..", "./b", "x/y", "a/b", "ā€日"}
 	limits = []int{-1, 0, 1, 2, 100}
 	return keys, prefixes, afters, limits
 }
